@@ -8,6 +8,7 @@ import Req.Client.UploadReader
 import Req.Client.ProgressClock
 import Req.Client.SetBody
 import Req.Client.ResponseStages
+import Req.Client.BodyTable
 /-! Driver lanes of C17. -/
 namespace Req.Driver.L.C17
 open Req.Proto
@@ -167,9 +168,8 @@ def showKind : Req.Body.Kind → String
   | .marshalJson => "json" | .marshalXml => "xml" | .raw => "raw"
 
 /-- `c17body method allowGet multipart ck cc cv rk rc rv ordered boundary f1..f6 marshal json xml body reqCT clientCT sniffed` -/
-def laneBody : List String → String
-  | [m, ag, mp, ck, cc, cv, rk, rc, rv, ord, b, f1, f2, f3, f4, f5, f6, mf, js, xm, body, rct, cct, sn] =>
-    let r : Option String := do
+def decodeCfg : List String → Option Req.Body.Cfg
+  | [m, ag, mp, ck, cc, cv, rk, rc, rv, ord, b, f1, f2, f3, f4, f5, f6, mf, js, xm, body, rct, cct, sn] => do
       let m ← decodeHex m
       let ck ← decodeList ck; let cc ← decodeNatList cc; let cv ← decodeList cv
       let rk ← decodeList rk; let rc ← decodeNatList rc; let rv ← decodeList rv
@@ -184,17 +184,41 @@ def laneBody : List String → String
       let rct ← decodeHex rct
       let cct ← decodeHex cct
       let sn ← decodeHex sn
-      let cfg : Req.Body.Cfg := {
+      pure {
         method := toStr m, allowGet := ag == "1", multipart := mp == "1",
         clientForm := cform, reqForm := rform, ordered := ord, files := files, boundary := b,
         marshal := if mf == "1" then some (js, xm) else none,
         body := body, reqCT := rct, clientCT := cct, sniffed := sn }
-      match Req.Body.dispatch cfg with
-      | none => pure "err"
-      | some o =>
-        pure ((match o.body with | none => "nil" | some x => encodeHex x) ++ " " ++ encodeHex o.ct)
-    r.getD "bad-op"
-  | _ => "bad-op"
+  | _ => none
+
+def laneBody (args : List String) : String :=
+  match decodeCfg args with
+  | none => "bad-op"
+  | some cfg =>
+    match Req.Body.dispatch cfg with
+    | none => "err"
+    | some o => (match o.body with | none => "nil" | some x => encodeHex x) ++ " " ++ encodeHex o.ct
+
+/-- `c17bodytable <the arguments of c17body>` → `kind=<k> ct=<hex> parser=<p>` read off the DECISION
+TABLE (`Body.kindTable`, `Body.expectedCT`) — not off `dispatch` — and the parser a standard
+server picks for that Content-Type (`Body.serverParser`); `err` when the call fails. -/
+def laneBodyTable (args : List String) : String :=
+  match decodeCfg args with
+  | none => "bad-op"
+  | some cfg =>
+    match Req.Body.dispatch cfg with
+    | none => "err"
+    | some _ =>
+      let k := Req.Body.kindTable cfg
+      let ct := Req.Body.expectedCT cfg k
+      let ks := match k with
+        | .none => "none" | .multipart => "multipart" | .form => "form"
+        | .marshalJson => "marshal-json" | .marshalXml => "marshal-xml" | .raw => "raw"
+      let ps := match Req.Body.serverParser ct with
+        | .urlencoded => "urlencoded"
+        | .multipart b => "multipart:" ++ encodeHex b
+        | .other => "other"
+      s!"kind={ks} ct={encodeHex ct} parser={ps}"
 
 /-- `c17wire …` = `c17body …` as seen on the wire: an empty body and no body look the same. -/
 def laneWire (args : List String) : String :=
@@ -420,6 +444,7 @@ def laneDlStages : List String → String
 
 def lanes : List (String × (List String → String)) := [
   ("c17dlstages", laneDlStages),
+  ("c17bodytable", laneBodyTable),
   ("c17dlhops", laneDlHops),
   ("c17setbody", laneSetBody),
   ("c17progwt", laneProgWT),
